@@ -266,3 +266,20 @@ def random_tags(rng, n, interior_ok=True):
         return np.arange(n, dtype=np.int64)
     k = int(rng.integers(1, max(2, n // 2 + 1)))
     return np.sort(rng.choice(n, size=min(k, n), replace=False)).astype(np.int64)
+
+
+def with_unused_points(kind, m, rng, how=None):
+    """the same cells over a point array with points that belong to no cell: appended directly (trailing), or the first
+    mesh of `m @ far_copy` (the library's own way of making one: all meshes of the list share the joint point array)"""
+    if how is None:
+        how = 'direct' if rng.random() < 0.5 else 'matmul'
+    d = m.p.shape[0]
+    kw = {'sort_t': m.sort_t} if kind == 'tri' else {}
+    if how == 'direct':
+        n = int(rng.integers(1, 4))
+        far = float(np.max(np.abs(m.p))) + 64.0
+        extra = np.array([[far + 8.0 * (i + 1) + c for i in range(n)] for c in range(d)])
+        return type(m)(np.hstack((m.p, extra)), m.t, validate=False, **kw), how
+    shift = float(np.max(m.p[0]) - np.min(m.p[0])) + 64.0
+    other = m.translated((shift,) + (0.0,) * (d - 1))
+    return (m @ other)[0], how
